@@ -189,6 +189,9 @@ func (v *globValidator) validateNext() bool {
 			v.invalidRefChar(c, "ref name cannot contain spaces, ~, ^, :, [, ?, *")
 		}
 	default:
+		if v.isRef && (0 <= c && c < ' ' || c == 0x7f) {
+			v.invalidRefChar(c, "ref name cannot contain ASCII control characters")
+		}
 	}
 	v.prec = prec
 
